@@ -371,7 +371,7 @@ def execute(ctx, hist, rng):
                         mech = 'svs-malformed-entry-partial-merge'
                     R['viol'].append((mech, f'after a {kind} vector the local vector is not an allowed result',
                                       dict(w, before={k.hex(): v for k, v in before_real.items()}, after={k.hex(): v for k, v in after_real.items()},
-                                           vector=[(None if n is None else nid(n).hex(), s) for n, s in ents])))
+                                           vector=[(None if n is None else ('raw-entry' if isinstance(n, str) else nid(n).hex()), s if not isinstance(s, bytes) else s.hex()) for n, s in ents])))
                     model_local = dict(after_real)
                 else:
                     model_local = dict(after_real)
